@@ -77,6 +77,8 @@ def execute(w, ins):
     if w.prev_raised:
         w.stats['raised_steps'] += 1
     w.stats['op:' + ins['op'] + (':skip' if r == 'skip' else '')] += 1
+    if w.real_dir is not None:
+        w.stats['steps_on_real_disk'] += 1
     if r != 'skip' and ins['op'] in REDO_OPS:
         w.history.append(ins)
         if len(w.history) > 40:
@@ -161,7 +163,7 @@ def run(prop, cfg, seed, trace=None, max_steps=None):
                     executed.append(ins)
                     execute(w, ins)
             else:
-                r = prng.stream(seed, 'ops')
+                r = prng.stream(cfg.get('gen_seed', seed), 'ops')
                 for ins in gen.prologue(w, cfg, r):
                     executed.append(ins)
                     execute(w, ins)
@@ -175,6 +177,9 @@ def run(prop, cfg, seed, trace=None, max_steps=None):
                     n = cfg['steps'] if max_steps is None else max_steps
                     for _ in range(n):
                         ins = gen.next_instruction(w, r, cfg)
+                        executed.append(ins)
+                        execute(w, ins)
+                    for ins in gen.sweep_tail(w, r, cfg):
                         executed.append(ins)
                         execute(w, ins)
             epilogue(w)
